@@ -21,6 +21,8 @@ pub enum InnerFault {
     Expired,
     MisplacedInParent,
     MisplacedOtherKeyDir(u8),
+    /// inner links in `<step name up to its last dot>.<keyid8>/` (only differs from the proper place for dotted step names)
+    MisplacedStrippedExtension,
     InnerLinkRemoved(u8),
     InnerLinkTampered(u8, TreeEdit),
     InnerLinkByUnauthorized(u8),
@@ -41,6 +43,28 @@ pub struct Spec {
     pub match_link: bool,
     /// apply the fault one level deeper when a nested delegation exists
     pub deeper: bool,
+    /// step names of the parent layout contain dots (`s0.rel-1.2`)
+    #[serde(default)]
+    pub dotted: bool,
+}
+
+fn rename_top(w: &mut World, suffix: &str) {
+    let mut map = std::collections::BTreeMap::new();
+    for s in w.layout.steps.iter_mut() {
+        let n = format!("{}{}", s.name, suffix);
+        map.insert(s.name.clone(), n.clone());
+        s.name = n;
+    }
+    for f in w.links.iter_mut() {
+        if let Some(n) = map.get(&f.step) {
+            f.step = n.clone();
+        }
+        if let Body::Link { link, .. } = &mut f.body {
+            if let Some(n) = map.get(&link.name) {
+                link.name = n.clone();
+            }
+        }
+    }
 }
 
 fn rename_inner(w: &mut World, tag: &str) {
@@ -72,6 +96,7 @@ fn sub_indices(w: &World) -> Vec<usize> {
 
 fn apply_inner_fault(parent: &mut World, li: usize, fault: &InnerFault, deeper: bool) -> bool {
     let filed = parent.links[li].filed_under.clone();
+    let step_name = parent.links[li].step.clone();
     let parent_funcs = parent.layout.keys.clone();
     let Body::Sub { world, placement } = &mut parent.links[li].body else { return false };
     if deeper {
@@ -90,6 +115,10 @@ fn apply_inner_fault(parent: &mut World, li: usize, fault: &InnerFault, deeper: 
         InnerFault::Expired => world.layout.expires = 1_000_000_000,
         InnerFault::MisplacedInParent => *placement = Placement::ParentDir,
         InnerFault::MisplacedOtherKeyDir(n) => *placement = Placement::OtherKeyDir(pick(*n)),
+        InnerFault::MisplacedStrippedExtension => {
+            let Some((stem, _)) = step_name.rsplit_once('.') else { return false };
+            *placement = Placement::Named(format!("{}.{}", stem, prefix8(&filed)));
+        }
         InnerFault::InnerLinkRemoved(i) => {
             if world.links.is_empty() {
                 return false;
@@ -152,6 +181,7 @@ fn fault_strategy() -> BoxedStrategy<InnerFault> {
         2 => Just(InnerFault::Expired),
         2 => Just(InnerFault::MisplacedInParent),
         1 => any::<u8>().prop_map(InnerFault::MisplacedOtherKeyDir),
+        2 => Just(InnerFault::MisplacedStrippedExtension),
         1 => any::<u8>().prop_map(InnerFault::InnerLinkRemoved),
         1 => (any::<u8>(), tree_edit()).prop_map(|(i, e)| InnerFault::InnerLinkTampered(i, e)),
         2 => any::<u8>().prop_map(InnerFault::InnerLinkByUnauthorized),
@@ -171,7 +201,7 @@ impl Property for C15 {
         "Generated: two-level (thorough also three-level) delegation trees: a parent step authorises K (or two functionaries with threshold 2, each filing a copy) and its evidence file is a layout \
          signed by K; inner layouts have 0-2 steps with their own functionaries and links in <step>.<keyid8>/; one fault is injected into one \
          delegated step: inner layout signed by another functionary / by nobody / by K plus others; inner expiry in the past; inner links \
-         placed in the parent directory or under another key's directory; an inner link removed, tampered, replaced by an unauthorised \
+         placed in the parent directory, under another key's directory or (step names with dots) under the name with its last extension stripped; an inner link removed, tampered, replaced by an unauthorised \
          signer's, or with a broken signature; an inner rule that fails; the inner layout edited after signing; optionally the parent's next \
          step is tied to the delegated step's summary with MATCH ... FROM rules, and a step name is requested. Oracle: parent Ok only if the \
          ground-truth model finds no violated condition (the delegated step counts only when the inner world, judged with key set {K} and \
@@ -190,8 +220,12 @@ impl Property for C15 {
     fn strategy(tier: Tier) -> BoxedStrategy<Spec> {
         let depth = tier.pick(1usize, 2usize);
         let cfg = Cfg { min_steps: 1, max_steps: 3, max_owners: 1, sub_depth: depth, multi_sub: true, max_threshold: 2, ..Cfg::basic() };
-        (valid_world(cfg), fault_strategy(), any::<u8>(), proptest::option::of("[a-z]{1,6}"), any::<bool>(), prop_oneof![3 => Just(false), 1 => Just(true)])
-            .prop_filter_map("has a delegated step", |((mut world, owners), fault, which, step_name, match_link, deeper)| {
+        (valid_world(cfg), fault_strategy(), any::<u8>(), proptest::option::of("[a-z]{1,6}"), any::<bool>(), prop_oneof![3 => Just(false), 1 => Just(true)], any::<bool>())
+            .prop_filter_map("has a delegated step", |((mut world, owners), fault, which, step_name, match_link, deeper, dotted)| {
+                let dotted = dotted || fault == InnerFault::MisplacedStrippedExtension;
+                if dotted {
+                    rename_top(&mut world, ".rel-1.2");
+                }
                 for f in world.links.iter_mut() {
                     if let Body::Sub { world: inner, .. } = &mut f.body {
                         rename_inner(inner, "in");
@@ -200,7 +234,7 @@ impl Property for C15 {
                 if sub_indices(&world).is_empty() {
                     return None;
                 }
-                Some(Spec { world, owners, fault, which, step_name, match_link, deeper })
+                Some(Spec { world, owners, fault, which, step_name, match_link, deeper, dotted })
             })
             .boxed()
     }
@@ -262,6 +296,9 @@ impl Property for C15 {
             d(&w)
         };
         o.class(format!("depth:{}", depth));
+        if spec.dotted {
+            o.class("dotted-step-names");
+        }
         if w.layout.steps.iter().any(|s| s.threshold >= 2 && w.links.iter().filter(|f| f.step == s.name && matches!(f.body, Body::Sub { .. })).count() >= 2) {
             o.class("two-functionaries-delegate");
         }
